@@ -536,6 +536,15 @@ func (c *compiler) compileBind(l, r *Query, patterns []*Pattern) error {
 	}
 	var pc int
 	var vs [][2]int
+	if len(patterns) > 1 {
+		// all the variables of all the alternatives are null unless bound
+		for _, p := range patterns {
+			for _, name := range p.variables(nil) {
+				c.append(&code{op: oppush, v: nil})
+				c.append(&code{op: opstore, v: c.pushVariable(name)})
+			}
+		}
+	}
 	for i, p := range patterns {
 		var pcc int
 		var err error
